@@ -10,7 +10,7 @@ import vlib
 from vlib import Infra
 from checks import sshdfam
 
-PROGS = ["P1", "P2", "P3", "P4", "P5", "P6", "P9", "P10"]
+PROGS = ["P1", "P2", "P3", "P4", "P5", "P6", "P9", "P10", "P11", "P12"]
 BIG = ["P7", "P8"]
 
 
